@@ -34,6 +34,10 @@ def api_corr(rng, tier, prop):
             if r['unknown_param_error'] != 'ValueError':
                 dis.append({'class': tag, 'input': 'constructor called with no_such_parameter_xyz=1',
                             'observed': r['unknown_param_error'], 'expected': 'ValueError'})
+            for kw, e in (r.get('inherited_only') or {}).items():
+                if e != 'ValueError':
+                    dis.append({'class': tag, 'input': 'constructor called with %s, a parameter that only a base class declares' % kw,
+                                'observed': e or 'accepted', 'expected': 'ValueError'})
             if d['params'] and sorted(r['declared']) != sorted(d['params']):
                 dis.append({'class': tag, 'why': 'catalogue parameters differ from the running class', 'catalogue': d['params'], 'real': r['declared']})
         if 'skipped' in r:
